@@ -882,8 +882,127 @@ func (g *c05Gen_) schemaHistory(sc []string) {
 	fmt.Fprintf(g.out, "G %s %s %s %s\n", spec, c05Wires(pools[0]), c05Wires(pools[1]), strings.Join(txs, " "))
 }
 
+// largeCase: SIZE boundaries of link sets.  One hub entity on side `hub` of collection 0 is linked
+// with n peers (ids n000, n001, ... in key order, so batches, pages and merge loops see long runs);
+// the pools name only the hub and three peers (first, n-1-th, n-th), so the read API is compared
+// for those and the dump for everything.
+//
+//	kind "del":  link / count n+1 peers, delete one peer, delete the hub (DeleteById walks n links), re-create it
+//	kind "peer": the same, but the hub's links are created from the peers' side one by one (n back-links)
+//	kind "set":  AddLinks n peers, SetLinks to a 3/5 subset plus new peers (merge loop over long lists), delete the hub
+func (g *c05Gen_) largeCase(coll string, n int, kind string, hub int) {
+	r := g.r
+	id := func(k int) string { return toWire(fmt.Sprintf("n%03x", k)) }
+	h := toWire("h")
+	sides := [2]string{"A", "B"}
+	S, O := sides[hub], sides[1-hub]
+	hubStore, peerStore := c05gStoreOf(coll, hub), c05gStoreOf(coll, 1-hub)
+	if coll[0] == 's' {
+		S, O = "A", "A"
+		peerStore = hubStore
+	}
+	// one more link than n: a peer is deleted before the hub, which then has exactly n links
+	n++
+	extra := n / 5
+	var create []string
+	create = append(create, "c:"+hubStore+":"+h)
+	peers := make([]string, 0, n+extra)
+	for k := 0; k < n+extra; k++ {
+		peers = append(peers, id(k))
+		create = append(create, "c:"+peerStore+":"+id(k))
+	}
+	var txs []string
+	txs = append(txs, strings.Join(create, ";"))
+	victim := peers[r.intn(n)]
+	switch {
+	case coll[0] == 'r':
+		var ops []string
+		for k := 0; k < n; k++ {
+			if kind == "peer" || k%7 == 3 {
+				ops = append(ops, "inc:0:"+O+":"+peers[k]+":"+h)
+			} else {
+				ops = append(ops, "inc:0:"+S+":"+h+":"+peers[k])
+			}
+		}
+		ops = append(ops, "set:0:"+S+":"+h+":"+peers[n-1]+":3")
+		txs = append(txs, strings.Join(ops, ";"))
+	case kind == "peer":
+		var ops []string
+		for k := 0; k < n; k++ {
+			ops = append(ops, "a1:0:"+O+":"+peers[k]+":"+h)
+		}
+		txs = append(txs, strings.Join(ops, ";"))
+	default:
+		txs = append(txs, "al:0:"+S+":"+h+":"+strings.Join(peers[:n], ","))
+	}
+	if kind == "set" && coll[0] != 'r' {
+		// keep 3 of 5, add the extra peers, in shuffled order with a few duplicates
+		var req []string
+		for k := 0; k < n; k++ {
+			if k%5 < 3 {
+				req = append(req, peers[k])
+			}
+		}
+		req = append(req, peers[n:]...)
+		for i := len(req) - 1; i > 0; i-- {
+			j := r.intn(i + 1)
+			req[i], req[j] = req[j], req[i]
+		}
+		req = append(req, req[0], req[len(req)/2])
+		txs = append(txs, "sl:0:"+S+":"+h+":"+strings.Join(req, ","))
+	}
+	txs = append(txs, "d:"+peerStore+":"+victim)
+	if r.chance(1, 2) {
+		txs = append(txs, "d:"+hubStore+":"+h+";c:"+hubStore+":"+h)
+	} else {
+		txs = append(txs, "d:"+hubStore+":"+h, "c:"+hubStore+":"+h)
+	}
+	pools := [2]string{h, id(0) + "," + id(n-2) + "," + id(n-1)}
+	if coll[0] == 's' {
+		pools = [2]string{h + "," + id(0) + "," + id(n-1), h}
+		if coll[1] == 'B' {
+			pools[0], pools[1] = pools[1], pools[0]
+		}
+	} else if hub == 1 {
+		pools[0], pools[1] = pools[1], pools[0]
+	}
+	fmt.Fprintf(g.out, "G %s %s %s %s\n", coll, pools[0], pools[1], strings.Join(txs, " "))
+}
+
+func (g *c05Gen_) largeStream(tier string) {
+	r := g.r
+	plain := []string{"p00", "p10.01", "p01.30", "p11.12"}
+	rc := []string{"r00", "r01.10", "r10.03", "r11.21"}
+	if tier != "thorough" {
+		g.largeCase(pick(r, plain), 1001, "del", r.intn(2))
+		g.largeCase(pick(r, rc), 1001, "del", r.intn(2))
+		g.largeCase(pick(r, plain), 1001, "set", r.intn(2))
+		return
+	}
+	selfs := []string{"sA0", "sB1.2", "sA1.3", "sB0.1"}
+	for _, n := range []int{255, 256, 257, 1000, 1001} {
+		g.largeCase(pick(r, plain), n, "del", 0)
+		g.largeCase(pick(r, plain), n, "del", 1)
+		g.largeCase(pick(r, plain), n, "peer", r.intn(2))
+		g.largeCase(pick(r, plain), n, "set", r.intn(2))
+		g.largeCase(pick(r, rc), n, "del", r.intn(2))
+		g.largeCase(pick(r, rc), n, "peer", r.intn(2))
+		g.largeCase(pick(r, selfs), n, pick(r, []string{"del", "set"}), 0)
+	}
+	// the model is an association-list machine (quadratic in the number of entities): fewer cases up here
+	for _, n := range []int{2048, 2049} {
+		g.largeCase(pick(r, plain), n, "del", r.intn(2))
+		g.largeCase(pick(r, plain), n, "set", r.intn(2))
+		g.largeCase(pick(r, rc), n, "del", r.intn(2))
+		g.largeCase(pick(r, selfs), n, "del", 0)
+	}
+	g.largeCase(pick(r, plain), 4097, "del", r.intn(2))
+	g.largeCase(pick(r, rc), 4097, "del", r.intn(2))
+}
+
 func c05SchemaGen(g *c05Gen_, tier string) {
 	r := g.r
+	g.largeStream(tier)
 	if tier == "thorough" {
 		// bounded-exhaustive: every schema of at most 3 collections (454), deleted through each store
 		all := c05gMultisets(3)
